@@ -74,7 +74,26 @@ class Node:
         self.last_rx_t = None
         self.last_tx_t = None
         self.rx_log = []             # (t, frame idx) of every frame handled by this node
+        self.rxq = None              # set by start_rx_thread(): frames are handled by a controlled receive thread
+        self.rx_lt = None
+        self.rx_raised = []          # exceptions that escaped the handler on the receive thread (type names)
         bus.nodes.append(self)
+
+    def start_rx_thread(self):
+        """handle delivered frames on a controlled thread of their own (python-can's Notifier thread) instead of on the
+        scheduler: a send call made by the handler can then block (Bus.send_cost) while everything else goes on"""
+        self.rxq = rt.VQueue()
+        self.rx_lt = self.bus.w.spawn(self._rx_loop, name='R:' + self.name, kind='R')
+
+    def _rx_loop(self):
+        while True:
+            fr = self.rxq.get()
+            try:
+                self.receive(fr)
+            except (rt.Killed, rt.BusySpin):
+                raise
+            except Exception as e:                      # noqa: contained, as a Notifier's on_error would; reported by the checks
+                self.rx_raised.append(type(e).__name__)
 
     def receive(self, fr):
         if self.rx_active:
@@ -115,6 +134,8 @@ class Bus:
         self.ghost = None
         self.capture = None              # list: frames sent while probing are captured, not transmitted
         self.send_cost = 0.0             # a blocking driver: the sending thread is held this long inside send_message
+        self.send_visible = 1.0          # where in a blocking send call the frame appears on the bus: 1 = when the call returns
+                                         # (driver queues, then transmits), 0 = at once (the call waits for the transmit confirmation)
         self.cap = 20000                 # frame storm guard: beyond this the bus goes dead and the run is flagged
         self.storm = False
 
@@ -134,9 +155,10 @@ class Bus:
         cost = self.send_cost if (self.send_cost and not injected and node.blocking_send) else 0.0
         # a blocking driver serialises the send calls of one node (python-can's default backend holds a lock): a call made
         # while another one is in progress waits for it; the frame is on the bus when its own call completes
-        t_bus = (max(w.now, node.busy_until) + cost) if cost else w.now
+        t_ret = (max(w.now, node.busy_until) + cost) if cost else w.now      # when the send call returns
+        t_bus = t_ret - (1.0 - self.send_visible) * cost                      # when the frame is on the bus
         if cost:
-            node.busy_until = t_bus
+            node.busy_until = t_ret
         fr = Frame(n, t_bus, node.name, can_id, ext, data, fd)
         fr.injected = injected
         self.log.append(fr)
@@ -167,9 +189,9 @@ class Bus:
             # hold the sender (a controlled thread yields; everything else - receive threads, other stacks, the
             # application - goes on meanwhile); a send made by the scheduler thread itself just takes that long
             if w.cur is not None:
-                w.hold(t_bus - w.now)
-            elif w.now < t_bus:
-                w.now = t_bus
+                w.hold(t_ret - w.now)
+            elif w.now < t_ret:
+                w.now = t_ret
         inj = self.inject.get(n)
         if inj:
             for (can_id2, data2, fd2) in inj:
@@ -177,7 +199,10 @@ class Bus:
 
     def _deliver(self, rcv, fr):
         rcv.inflight -= 1
-        rcv.receive(fr)
+        if rcv.rxq is not None:
+            rcv.rxq.put(fr)
+        else:
+            rcv.receive(fr)
 
     def ghost_node(self):
         if self.ghost is None:
